@@ -46,7 +46,7 @@ INTERRUPTS = {"kbd": KeyboardInterrupt, "sysexit": SystemExit, "baseexc": Interr
 # Fault menus: kind -> deviation labels (alternative 0, "ok", is implicit).
 MENU_CONN = {
     "connect": ["refused", "timeout"],
-    "sendall": ["reset", "timeout_after"],
+    "sendall": ["reset", "timeout_after", "partial_timeout"],
     "recv": ["timeout", "reset", "eof", "eintr", "short1", "cut_cr"],
     "reply": ["error", "client_error", "server_error", "garbage", "trunc_stall", "trunc_eof", "wrong_key"],
 }
@@ -74,6 +74,8 @@ def with_interrupts(menu, kinds=("kbd", "sysexit", "baseexc"), points=ALL_POINTS
             m[p].append("int:" + k)
             if p in ("sendall", "connect", "close"):
                 m[p].append("int_after:" + k)
+            if p == "sendall":
+                m[p].append("int_partial:" + k)
     return m
 
 
@@ -388,6 +390,15 @@ class SimSocket:
             net.log("sendall_fail", self, "reset", self.timeout)
             raise ConnectionResetError(errno.ECONNRESET, "Connection reset by peer")
         data = bytes(data)
+        if c == "partial_timeout" or c.startswith("int_partial:"):
+            # only the first half of the request reaches the server before the call is cut short
+            part = data[: max(1, len(data) // 2)]
+            net.sent.append((net.call, self.sid, part))
+            net.log("sendall_fail", self, c, self.timeout)
+            self._deliver(part)
+            if c == "partial_timeout":
+                raise _realsocket.timeout("timed out")
+            raise INTERRUPTS[c[12:]]()
         net.sent.append((net.call, self.sid, data))
         net.log("sendall", self, len(data), self.timeout)
         self._deliver(data)
